@@ -1322,7 +1322,12 @@ class DocutilsRenderer(RendererProtocol):
             if not isinstance(value, str | int | float | date | datetime):
                 # note, `default` handles values that YAML can produce,
                 # but JSON cannot represent (e.g. dates, sets or binary data)
-                value = json.dumps(value, default=str)
+                try:
+                    value = json.dumps(value, default=str)
+                except TypeError:
+                    # a nested mapping with a key that JSON cannot represent
+                    # (e.g. a date)
+                    value = str(value)
             value = str(value)
             body = nodes.paragraph()
             body.source, body.line = self.document["source"], line
